@@ -308,6 +308,9 @@ func (c *Call) predict() (res *model.Result, unordered bool) {
 		res = c.V.expect()
 		return res, c.V.Carrier == "mapiface" && len(c.V.Others) > 0
 	}
+	if c.S.NoModel {
+		return &model.Result{Excluded: []string{"rejected-source"}}, false
+	}
 	res = model.Walk(c.S.walkCfg(), reflect.ValueOf(c.S.source()))
 	return res, res.SawMap || len(res.Groups) > 1
 }
@@ -503,6 +506,10 @@ func genScalarCall(t *rapid.T, mg *msgGen) *ScalarCase {
 		c.Missing = true // (not next to a per-call function named required: what that means for an absent entry is undocumented)
 	}
 	finishScalar(t, c)
+	if c.Carrier == "var" && rapid.IntRange(0, 7).Draw(t, "badSrc") == 5 {
+		// a call that Var turns down before it validates anything (what it was given stays with that call)
+		c.BadSrc, c.NoModel = rapid.SampledFrom([]string{"nil", "typednil", "struct", "map"}).Draw(t, "badSrcKind"), true
+	}
 	return c
 }
 
